@@ -50,10 +50,35 @@ struct xmlpr_ctx {
     const struct ly_ctx *ctx; /**< libyang context */
     struct ly_set prefix;     /**< printed namespace prefixes */
     struct ly_set ns;         /**< printed namespaces */
+    struct ly_set val_mods;   /**< modules whose prefixes are used in the values of the start tag being printed */
 };
 
 #define LYXML_PREFIX_REQUIRED 0x01  /**< The prefix is not just a suggestion but a requirement. */
 #define LYXML_PREFIX_DEFAULT  0x02  /**< The namespace is required to be a default (without prefix) */
+
+/**
+ * @brief Check whether a prefix is needed for another namespace by a value in the start tag being printed.
+ *
+ * @param[in] pctx XML printer context.
+ * @param[in] prefix Prefix to check.
+ * @param[in] ns Namespace the prefix is going to be used for.
+ * @return Whether the prefix cannot be used.
+ */
+static ly_bool
+xml_prefix_reserved(struct xmlpr_ctx *pctx, const char *prefix, const char *ns)
+{
+    const struct lys_module *mod;
+    uint32_t i;
+
+    for (i = 0; i < pctx->val_mods.count; ++i) {
+        mod = pctx->val_mods.objs[i];
+        if (!strcmp(mod->prefix, prefix) && strcmp(mod->ns, ns)) {
+            return 1;
+        }
+    }
+
+    return 0;
+}
 
 /**
  * @brief Print a namespace if not already printed.
@@ -67,9 +92,10 @@ struct xmlpr_ctx {
 static const char *
 xml_print_ns(struct xmlpr_ctx *pctx, const char *ns, const char *new_prefix, uint32_t prefix_opts)
 {
-    uint32_t i, n = 0;
+    uint32_t i, j, n = 0;
     const char *suggested = new_prefix;
     char *uniq_prefix = NULL;
+    ly_bool clash;
     LY_ERR r;
 
     for (i = pctx->ns.count; i > 0; --i) {
@@ -91,6 +117,21 @@ xml_print_ns(struct xmlpr_ctx *pctx, const char *ns, const char *new_prefix, uin
                     continue;
                 }
 
+                for (j = i; j < pctx->ns.count; ++j) {
+                    if (pctx->prefix.objs[j] && !strcmp(pctx->prefix.objs[j], pctx->prefix.objs[i - 1])) {
+                        break;
+                    }
+                }
+                if (j < pctx->ns.count) {
+                    /* the prefix is bound to another namespace by a nested definition */
+                    continue;
+                }
+
+                if (!(prefix_opts & LYXML_PREFIX_REQUIRED) && xml_prefix_reserved(pctx, pctx->prefix.objs[i - 1], ns)) {
+                    /* the prefix is going to be redefined in this start tag */
+                    continue;
+                }
+
                 if (!strcmp(pctx->prefix.objs[i - 1], new_prefix) || !(prefix_opts & LYXML_PREFIX_REQUIRED)) {
                     /* the same prefix or can be any */
                     return pctx->prefix.objs[i - 1];
@@ -101,18 +142,21 @@ xml_print_ns(struct xmlpr_ctx *pctx, const char *ns, const char *new_prefix, uin
 
     /* suitable namespace not found, must be printed */
     if (new_prefix && !(prefix_opts & LYXML_PREFIX_REQUIRED)) {
-        /* the suggested prefix must not be bound to another namespace in the scope, make it unique */
-        i = 0;
-        while (i < pctx->ns.count) {
-            if (pctx->prefix.objs[i] && !strcmp(pctx->prefix.objs[i], new_prefix)) {
+        /* the suggested prefix must not be bound to another namespace in the scope nor needed for another namespace
+         * by a value in this start tag, make it unique */
+        do {
+            clash = xml_prefix_reserved(pctx, new_prefix, ns);
+            for (i = 0; !clash && (i < pctx->ns.count); ++i) {
+                if (pctx->prefix.objs[i] && !strcmp(pctx->prefix.objs[i], new_prefix)) {
+                    clash = 1;
+                }
+            }
+            if (clash) {
                 free(uniq_prefix);
                 LY_CHECK_RET(asprintf(&uniq_prefix, "%s%" PRIu32, suggested, ++n) == -1, NULL);
                 new_prefix = uniq_prefix;
-                i = 0;
-            } else {
-                ++i;
             }
-        }
+        } while (clash);
     }
     ly_print_(pctx->out, " xmlns%s%s=\"%s\"", new_prefix ? ":" : "", new_prefix ? new_prefix : "", ns);
 
@@ -207,6 +251,23 @@ xml_print_meta(struct xmlpr_ctx *pctx, const struct lyd_node *node)
     const char *value;
     uint32_t i;
 
+    /* the prefixes used in the metadata values are fixed, learn them all before any prefix is chosen in this start tag */
+    for (meta = node->meta; meta; meta = meta->next) {
+        if (!lyd_metadata_should_print(meta)) {
+            continue;
+        }
+
+        ly_set_add(&ns_list, NULL, 0, NULL);
+        value = meta->value.realtype->plugin->print(LYD_CTX(node), &meta->value, LY_VALUE_XML, &ns_list, &dynamic, NULL);
+        if (dynamic) {
+            free((void *)value);
+        }
+        for (i = 1; i < ns_list.count; ++i) {
+            ly_set_add(&pctx->val_mods, ns_list.objs[i], 0, NULL);
+        }
+        ly_set_erase(&ns_list, NULL);
+    }
+
     /* with-defaults */
     if (node->schema->nodetype & LYD_NODE_TERM) {
         if (((node->flags & LYD_DEFAULT) && (pctx->options & (LYD_PRINT_WD_ALL_TAG | LYD_PRINT_WD_IMPL_TAG))) ||
@@ -246,7 +307,7 @@ xml_print_meta(struct xmlpr_ctx *pctx, const struct lyd_node *node)
         /* print namespaces connected with the value's prefixes */
         for (i = 1; i < ns_list.count; ++i) {
             mod = ns_list.objs[i];
-            xml_print_ns(pctx, mod->ns, mod->prefix, 1);
+            xml_print_ns(pctx, mod->ns, mod->prefix, LYXML_PREFIX_REQUIRED);
         }
         ly_set_erase(&ns_list, NULL);
 
@@ -278,10 +339,19 @@ xml_print_meta(struct xmlpr_ctx *pctx, const struct lyd_node *node)
  *
  * @param[in] ctx XML printer context.
  * @param[in] node Data node to be printed.
+ * @param[in] val_mods Modules of the prefixes used in the value of the node except for the first item, may be NULL.
  */
 static void
-xml_print_node_open(struct xmlpr_ctx *pctx, const struct lyd_node *node)
+xml_print_node_open(struct xmlpr_ctx *pctx, const struct lyd_node *node, const struct ly_set *val_mods)
 {
+    const struct lys_module *mod;
+    uint32_t i;
+
+    /* the prefixes used in the value of the node are fixed */
+    for (i = 1; val_mods && (i < val_mods->count); ++i) {
+        ly_set_add(&pctx->val_mods, val_mods->objs[i], 0, NULL);
+    }
+
     /* print node name */
     ly_print_(pctx->out, "%*s<%s", INDENT, node->schema->name);
 
@@ -290,6 +360,14 @@ xml_print_node_open(struct xmlpr_ctx *pctx, const struct lyd_node *node)
 
     /* print metadata */
     xml_print_meta(pctx, node);
+
+    /* print namespaces connected with the value's prefixes unless they are in the scope already */
+    for (i = 1; val_mods && (i < val_mods->count); ++i) {
+        mod = val_mods->objs[i];
+        xml_print_ns(pctx, mod->ns, mod->prefix, LYXML_PREFIX_REQUIRED);
+    }
+
+    ly_set_erase(&pctx->val_mods, NULL);
 }
 
 static LY_ERR
@@ -353,8 +431,6 @@ xml_print_term(struct xmlpr_ctx *pctx, const struct lyd_node_term *node)
     struct ly_set ns_list = {0};
     ly_bool dynamic = 0;
     const char *value = NULL;
-    const struct lys_module *mod;
-    uint32_t i;
 
     /* store the module of the default namespace */
     if ((rc = ly_set_add(&ns_list, node->schema->module, 0, NULL))) {
@@ -367,14 +443,8 @@ xml_print_term(struct xmlpr_ctx *pctx, const struct lyd_node_term *node)
             &ns_list, &dynamic, NULL);
     LY_CHECK_ERR_GOTO(!value, rc = LY_EINVAL, cleanup);
 
-    /* print node opening */
-    xml_print_node_open(pctx, &node->node);
-
-    /* print namespaces connected with the values's prefixes */
-    for (i = 1; i < ns_list.count; ++i) {
-        mod = ns_list.objs[i];
-        ly_print_(pctx->out, " xmlns:%s=\"%s\"", mod->prefix, mod->ns);
-    }
+    /* print node opening with the namespaces connected with the values's prefixes */
+    xml_print_node_open(pctx, &node->node, &ns_list);
 
     if (!value[0]) {
         ly_print_(pctx->out, "/>%s", DO_FORMAT ? "\n" : "");
@@ -405,7 +475,7 @@ xml_print_inner(struct xmlpr_ctx *pctx, const struct lyd_node_inner *node)
     LY_ERR ret;
     struct lyd_node *child;
 
-    xml_print_node_open(pctx, &node->node);
+    xml_print_node_open(pctx, &node->node, NULL);
 
     LY_LIST_FOR(node->child, child) {
         if (lyd_node_should_print(child, pctx->options)) {
@@ -445,7 +515,7 @@ xml_print_anydata(struct xmlpr_ctx *pctx, const struct lyd_node_any *node)
         LOGINT_RET(pctx->ctx);
     }
 
-    xml_print_node_open(pctx, &node->node);
+    xml_print_node_open(pctx, &node->node, NULL);
 
     if (!any->value.tree) {
         /* no content */
